@@ -7,6 +7,7 @@ import (
 	"go/types"
 
 	"golang.org/x/tools/go/packages"
+	"golang.org/x/tools/go/ssa"
 	"golang.org/x/tools/go/types/typeutil"
 )
 
@@ -214,3 +215,5 @@ func isTestFile(w *World, pos token.Pos) bool {
 	f := w.Fset.Position(pos).Filename
 	return len(f) > 8 && f[len(f)-8:] == "_test.go"
 }
+
+type ssaFunction = ssa.Function
